@@ -48,6 +48,10 @@ pub struct WFrameSpec {
     /// a context registration (`xs.context` in the zero context) instead of an ordinary frame
     #[serde(default)]
     pub register: bool,
+    /// the frame handed to `append` already carries an (old) id, as a frame read back from a
+    /// store does: `append` assigns its own
+    #[serde(default)]
+    pub stale_id: bool,
 }
 
 #[derive(Clone, Debug, Serialize, Deserialize)]
@@ -85,13 +89,14 @@ pub fn rule_spec(n_writers: u8, labels: usize) -> BoxedStrategy<RuleSpec> {
 }
 
 pub fn strategy() -> BoxedStrategy<C02Case> {
-    let frame = (0u8..3, 0u8..3, prop_oneof![9 => Just(false), 1 => Just(true)], prop_oneof![3 => Just(0u16), 1 => 0u16..2000], proptest::bool::weighted(0.12))
-        .prop_map(|(ctx, topic, ephemeral, pause_us, register)| WFrameSpec {
+    let frame = (0u8..3, 0u8..3, prop_oneof![9 => Just(false), 1 => Just(true)], prop_oneof![3 => Just(0u16), 1 => 0u16..2000], proptest::bool::weighted(0.12), proptest::bool::weighted(0.12))
+        .prop_map(|(ctx, topic, ephemeral, pause_us, register, stale_id)| WFrameSpec {
             ctx,
             topic,
             ephemeral,
             pause_us,
             register,
+            stale_id,
         });
     let directed = (
         proptest::collection::vec(proptest::collection::vec(frame, 1..=4), 2..=4),
@@ -179,9 +184,18 @@ fn run_in(case: &C02Case, exec: &mut Exec) -> Result<CaseInfo, Fail> {
                 start_delay_us: 0,
                 frames: fs
                     .iter()
-                    .map(|f| {
+                    .enumerate()
+                    .map(|(fi, f)| {
                         (
-                            if f.register {
+                            if f.stale_id && !f.register {
+                                let mut s = spec(
+                                    TOPICS[f.topic as usize % 3],
+                                    ctxs[f.ctx as usize % 3],
+                                    if f.ephemeral { Some(WTtl::Ephemeral) } else { None },
+                                );
+                                s.id = Some((1u128 << 80) + fi as u128 + 1);
+                                s
+                            } else if f.register {
                                 spec("xs.context", ZERO, None)
                             } else {
                                 spec(
